@@ -94,6 +94,17 @@ Theorem C07_crash_image_le8 : forall c h fs0 ds d k, (k <= 8)%nat ->
   crash_image (archive c h fs0 ds) (append_trace c h fs0 ds d) k = archive c h fs0 ds.
 Proof. exact crash_image_le8. Qed.
 
+(* ---- corners excluded by hypotheses, and what the code does there (checked by tools/c07.py on every run):
+   * crash during the FIRST write (no archive A yet): C07_first_snapshot_cut gives 'no snapshot exposed' for cuts before
+     the END field; for cuts inside the last 12 bytes snapshot 0 is exposed.  In both cases the model's write_trace (as the
+     code) returns None on the next append: nothing is ever stored again (open known finding
+     restart-after-first-write-crash; the refused appends also leak a FILE*: failed-append-leaks-descriptor).
+   * small_d / index bounds (< 2^32) and the unsigned reading of the int32 trailer members: archives with offset_next,
+     offset_prev, index or a field size replaced by 0x7fffffff, 0x80000000, 0xffffffff, 2^40, 2^63, 2^64-16, 2^64-1 are
+     opened by the library without crash or hang and exactly as open_archive predicts (correspondence 'integer limits').
+   * zero-length file, file shorter than a field header, header only: cuts 0, 1, 16, 63, 64, 65 of the first write are
+     in the sweep (error reported, model agrees). *)
+
 (* ---- degenerate snapshots are inside the quantification of all theorems above: a delta may be EMPTY (snapshot
    byte-identical to snapshot 0: blob = END field only, offset_next = 16, 28 bytes with its trailer), equal to its
    predecessor, the archive may consist of one snapshot (ds = []), the cut may be the very last byte (k = |trace|-1) *)
